@@ -318,7 +318,7 @@ def strat_list():
             c['forms'] = forms
             c['dups'] = []
         return c
-    form = st.one_of(st.none(), st.none(), st.tuples(st.just('port'), st.sampled_from([2222, 65535, 1, 22, 8022])).map(list), st.tuples(st.just('v6'), st.sampled_from([22, 2222, 65535])).map(list), st.tuples(st.just('samehost'), st.sampled_from([2200, 65530])).map(list))
+    form = st.one_of(st.none(), st.none(), st.tuples(st.just('port'), st.sampled_from([2222, 65535, 1, 22, 8022])).map(list), st.tuples(st.just('v6'), st.sampled_from([22, 2222, 65535])).map(list), st.tuples(st.just('samehost'), st.sampled_from([2200, 3300])).map(list))
     return st.tuples(st.lists(st.sampled_from(ALLK), min_size=2, max_size=5), st.sampled_from(['text', 'json', 'text', 'json', 'batch']), st.integers(1, 5), st.lists(st.integers(0, 4), min_size=1, max_size=40), st.booleans(),
                      st.one_of(st.just([None] * 6), st.lists(form, min_size=6, max_size=6))).map(build)
 
